@@ -1537,7 +1537,21 @@ impl SctpInner {
             let mut sent_queue = self.sent_queue.lock();
             let mut retransmit_count = 0u32;
 
-            for (tsn, record) in sent_queue.iter_mut() {
+            // Walk the queue in TSN order, not in the map's numeric key order: once the
+            // queue straddles the 2^32 wrap the numerically smallest keys are the NEWEST
+            // chunks, and the retransmission burst below must go to the oldest ones - the
+            // ones the peer's cumulative ack is waiting for - or the association can keep
+            // retransmitting the same few young chunks for ever.
+            let oldest = oldest_outstanding_tsn(&sent_queue).unwrap_or(0);
+            let order: Vec<u32> = sent_queue
+                .range(oldest..)
+                .map(|(k, _)| *k)
+                .chain(sent_queue.range(..oldest).map(|(k, _)| *k))
+                .collect();
+            for tsn in order.iter() {
+                let Some(record) = sent_queue.get_mut(tsn) else {
+                    continue;
+                };
                 if !record.acked && !record.abandoned {
                     // Mark all unacked packets as no longer in-flight
                     if record.in_flight {
